@@ -600,21 +600,20 @@ func (pr *ProtoArray) OnPrune(ctx context.Context, anchorRoot Root, anchorSlot S
 		// nothing to do
 		return nil
 	}
-	// Get the head, it will help quickly determine if pruned nodes are canonical
-	head, err := pr.FindHead(anchorRoot, anchorSlot)
-	if err != nil {
-		return err
+	// The pruned nodes that are canonical are those the anchor builds on: its transition ancestors.
+	// (The best-descendant of such a node may well be on another, heavier, but now pruned branch.)
+	canonicalNodes := make(map[NodeIndex]struct{})
+	for i := pr.nodes[anchorIndex-pr.indexOffset].TransitionParent; i != NONE && i >= pr.indexOffset; {
+		canonicalNodes[i] = struct{}{}
+		i = pr.nodes[i-pr.indexOffset].TransitionParent
 	}
-	headIndex, ok := pr.indices[head]
-	if !ok {
-		return HeadUnknownErr
-	}
+	var err error
 	// Remove the `self.indices` and `self.blockSlots` key/values for all the to-be-deleted nodes.
 	var pruned []prunedNode
 	for i := pr.indexOffset; i < anchorIndex; i++ {
 		node := &pr.nodes[i-pr.indexOffset]
 		if pr.sink != nil {
-			canonical := node.BestDescendant == headIndex
+			_, canonical := canonicalNodes[i]
 			pruned = append(pruned, prunedNode{canonical, node})
 		}
 	}
